@@ -108,14 +108,14 @@ def parse_summary(out):
     return dict(zip(k, map(int, m.groups())))
 
 
-def run_cli(args, epoch=None, env_extra=None, cwd=None, strace_out=None, inject=None, timeout=120, release=False, umask=None, fsize_limit=None):
+def run_cli(args, epoch=None, env_extra=None, cwd=None, strace_out=None, inject=None, timeout=120, release=False, umask=None, fsize_limit=None, as_uid=None, binary=None):
     env = dict(ENV)
     env.pop("SOURCE_DATE_EPOCH", None)
     if epoch is not None:
         env["SOURCE_DATE_EPOCH"] = str(epoch)
     if env_extra:
         env.update(env_extra)
-    cmd = [cli_bin(release)] + list(args)
+    cmd = [binary or cli_bin(release)] + list(args)
     if strace_out or inject:
         pre = ["strace", "-f", "-y", "-qq", "-s", "0", "-o", strace_out or os.devnull, "-e", "trace=" + TRACE_SYSCALLS]
         if inject:
@@ -130,7 +130,12 @@ def run_cli(args, epoch=None, env_extra=None, cwd=None, strace_out=None, inject=
             import resource
             signal.signal(signal.SIGXFSZ, signal.SIG_IGN)
             resource.setrlimit(resource.RLIMIT_FSIZE, (fsize_limit, fsize_limit))
-    if umask is None and fsize_limit is None:
+        if as_uid is not None:
+            # an unprivileged invoker (no supplementary groups): chown to somebody else is refused
+            os.setgroups([])
+            os.setgid(as_uid)
+            os.setuid(as_uid)
+    if umask is None and fsize_limit is None and as_uid is None:
         pre_fn = None
     # own session, so that a run that does not come back is killed together with its workers
     p = subprocess.Popen(cmd, env=env, cwd=cwd, stdout=subprocess.PIPE, stderr=subprocess.STDOUT, preexec_fn=pre_fn, start_new_session=True)
